@@ -18,6 +18,8 @@ var encMode, _ = cbor.EncOptions{Sort: cbor.SortCanonical}.EncMode()
 type Wrapped struct {
 	Prefix []byte
 	Doc    interface{}
+	Orig   []byte // the original byte string; re-used verbatim unless something below was changed
+	Dirty  bool
 }
 
 // Decode parses CBOR into a generic tree; byte strings that are themselves CBOR
@@ -56,7 +58,7 @@ func unfold(v interface{}, depth int) interface{} {
 					if err := decMode.Unmarshal(b, &inner); err == nil {
 						// re-encoding must reproduce the bytes, otherwise keep it opaque
 						if re, err := encMode.Marshal(inner); err == nil && (bytes.Equal(re, b) || sameDoc(re, b)) {
-							return &Wrapped{Prefix: append([]byte{}, x[:pre]...), Doc: unfold(inner, depth+1)}
+							return &Wrapped{Prefix: append([]byte{}, x[:pre]...), Doc: unfold(inner, depth+1), Orig: append([]byte{}, x...)}
 						}
 					}
 				}
@@ -100,6 +102,9 @@ func fold(v interface{}) interface{} {
 		}
 		return a
 	case *Wrapped:
+		if !x.Dirty && x.Orig != nil {
+			return append([]byte{}, x.Orig...)
+		}
 		b, err := encMode.Marshal(fold(x.Doc))
 		if err != nil {
 			return []byte{}
@@ -128,7 +133,7 @@ func clone(v interface{}) interface{} {
 	case []byte:
 		return append([]byte{}, x...)
 	case *Wrapped:
-		return &Wrapped{Prefix: append([]byte{}, x.Prefix...), Doc: clone(x.Doc)}
+		return &Wrapped{Prefix: append([]byte{}, x.Prefix...), Doc: clone(x.Doc), Orig: x.Orig, Dirty: x.Dirty}
 	}
 	return v
 }
@@ -156,11 +161,16 @@ func Sites(root interface{}, maxFan int) []Site {
 				ks = append(ks, k)
 			}
 			sort.Slice(ks, func(i, j int) bool { return fmt.Sprint(ks[i]) < fmt.Sprint(ks[j]) })
-			idx := pickIdx(len(ks), maxFan)
+			// maps are struct fields or per-party tables: always enumerated completely (only arrays are sampled)
+			fan := maxFan
+			if fan < 40 {
+				fan = 40
+			}
+			idx := pickIdx(len(ks), fan)
 			for _, i := range idx {
 				k := ks[i]
 				name := fmt.Sprint(k)
-				if len(ks) > maxFan {
+				if len(ks) > fan {
 					name = "{" + pos(i, len(ks)) + "}"
 				}
 				walk(x[k], path+"/"+name, append(keys, k))
@@ -252,6 +262,7 @@ func With(root interface{}, s Site, nv interface{}, del bool) interface{} {
 		case []interface{}:
 			v = x[k.(int)]
 		case *Wrapped:
+			x.Dirty = true
 			v = x.Doc
 		}
 	}
@@ -272,6 +283,7 @@ func With(root interface{}, s Site, nv interface{}, del bool) interface{} {
 		}
 		x[i] = nv
 	case *Wrapped:
+		x.Dirty = true
 		x.Doc = nv
 	}
 	return c
